@@ -253,6 +253,7 @@ class Env:
         self.crash = None        # CrashController or None
         self.fault = None        # FaultController or None
         self.sched = None
+        self.cur_thread = None          # the concurrent operation currently running (mirsym.sched)
         self.pid = 0
         self.short_read_budget = 2   # number of reads per file that may return less than possible
         self.max_reads_per_file = 3  # reads per file that may return data (bound; then EOF forced)
@@ -286,6 +287,8 @@ class Env:
         self.n_effects_step += 1
         if self.trace:
             self.trace[-1]["done"] = True
+        if self.sched is not None:
+            self.sched.on_effect(self)
 
     def begin_op(self, name):
         self.cur_op = name
@@ -489,7 +492,7 @@ def op_open(I, path, read=False, write=False, append=False, create=False, trunca
 def op_read(I, f, dst):
     """read(2) into a &mut [u8] window.  Returns n (int or BV64)."""
     env = I.env
-    fail_if_injected(env.act("read", f.path, mutating=False))
+    fail_if_injected(env.act("read", f.path, mutating=False, fobj=f))
     if f.inode.kind == "dir":
         raise FsErr("IsADirectory")
     if not f.read:
@@ -543,7 +546,7 @@ def op_read(I, f, dst):
 
 def op_read_all(I, f):
     env = I.env
-    fail_if_injected(env.act("read", f.path, mutating=False, whole=True))
+    fail_if_injected(env.act("read", f.path, mutating=False, whole=True, fobj=f))
     if f.inode.kind == "dir":
         raise FsErr("IsADirectory")
     content = f.inode.sb
@@ -1096,7 +1099,7 @@ def _file_set_len(I, a, d):
     n = a[1]
 
     def go():
-        fail_if_injected(I.env.act("ftruncate", f.path, mutating=True))
+        fail_if_injected(I.env.act("ftruncate", f.path, mutating=True, fobj=f))
         set_len(I, f.inode, n)
         I.env.effect("ftruncate")
         return UNIT
@@ -1120,7 +1123,7 @@ def _file_sync(I, a, d):
     f = peel(a[0])
 
     def go():
-        fail_if_injected(I.env.act("fsync", f.path, mutating=False))
+        fail_if_injected(I.env.act("fsync", f.path, mutating=False, fobj=f))
         return UNIT
     return wrap(I, go)
 
@@ -1289,6 +1292,19 @@ def _write_all(I, a, d):
     raise Hang("write_all does not make progress")
 
 
+@T.trait("Write", "write_fmt")
+def _write_fmt(I, a, d):
+    """std's default write_fmt: core::fmt::write drives an adapter whose write_str is write_all, so every
+    literal piece and every argument of the format string reaches the writer as its own write_all."""
+    from .core import format_pieces
+    fa = peel(a[1])
+    for piece in format_pieces(I, fa):
+        r = I.call_trait_method("Write", "write_all", [a[0], BytesRef(piece, "bytes")])
+        if r.vname == "Err":
+            return r
+    return OK(UNIT)
+
+
 @T.trait("Write", "flush")
 def _generic_flush(I, a, d):
     v = peel(a[0])
@@ -1313,7 +1329,7 @@ class RawFd:
 def _posix_fallocate(I, a, d):
     fd, off, ln = a
     f = fd.f
-    inj = I.env.act("fallocate", f.path, mutating=True, length=ln)
+    inj = I.env.act("fallocate", f.path, mutating=True, length=ln, fobj=f)
     if inj:
         return ERRNO.get(inj, 5)
     # len is i64
@@ -1570,8 +1586,14 @@ class NamedTempFileObj:
 
 def new_temp_in(I, dirpath):
     env = I.env
-    env.vfs.tmp_counter += 1
-    name = (".tmp%06d" % env.vfs.tmp_counter).encode()
+    t = getattr(env, "cur_thread", None)
+    if t is not None:
+        # concurrent users: names are unique per process (natively: random), independent of the schedule
+        t.tmp_counter += 1
+        name = (".tmpT%d_%04d" % (t.tid, t.tmp_counter)).encode()
+    else:
+        env.vfs.tmp_counter += 1
+        name = (".tmp%06d" % env.vfs.tmp_counter).encode()
     path = path_join(dirpath, SBytes(name))
     f = op_open(I, path, read=True, write=True, create_new=True)
     f.inode.tag = ("tempfile", env.pid)
@@ -1727,7 +1749,7 @@ class MmapObj:
 @T.path("memmap2::MmapMut::map_mut")
 def _mmap_map_mut(I, a, d):
     f = peel(a[0])
-    inj = I.env.act("mmap", f.path, mutating=False)
+    inj = I.env.act("mmap", f.path, mutating=False, fobj=f)
     if inj:
         return ERR(io_err(inj, True))
     ln = f.inode.sb.length()
